@@ -38,7 +38,8 @@ Proof.
   - reflexivity.
   - destruct (zmem _ _); [destruct (Nat.eqb _ _)|]; reflexivity.
   - destruct (zmem _ _); reflexivity.
-  - destruct (zmem _ _); [reflexivity|]. rewrite tight_app, tight_add_variable. destruct (has_cell _ _ _); reflexivity.
+  - destruct (zmem _ _); [reflexivity|]. destruct (has_cell h r (V name)); [reflexivity|].
+    rewrite tight_app, tight_add_variable. destruct (has_cell _ _ _); reflexivity.
   - destruct (zmem _ _); [reflexivity|]. destruct (zmem _ _); [reflexivity|]. destruct (_ =? _); reflexivity.
   - destruct (zmem _ _); [reflexivity|]. destruct (zmem _ _); [reflexivity|]. destruct (_ =? _); reflexivity.
   - destruct (zmem _ _); reflexivity.
@@ -50,7 +51,7 @@ Proof.
   - reflexivity.
   - (* trace_t: the Trace gets a fresh list of names in every mode *)
     rewrite tight_app. apply andb_true_iff. split; [|reflexivity].
-    destruct (is_empty_trace h r t || reset); [|reflexivity].
+    match goal with |- tight (if ?b then _ else _) = true => destruct b; [|reflexivity] end.
     apply tight_trace_cell. reflexivity.
   - reflexivity.
   - reflexivity.
